@@ -204,7 +204,17 @@ def safe_oracle(check, case):
         raise
     except RecursionError:
         return skip('recursion-limit-in-harness')
-    except Exception:
+    except Exception as e:
+        # An exception that was raised INSIDE the package and that the oracle did not expect is the package
+        # misbehaving on a generated input, not a fault of the harness: report it as a violation.
+        tb = e.__traceback__
+        inner = None
+        while tb is not None:
+            inner = tb.tb_frame.f_code.co_filename
+            tb = tb.tb_next
+        pkg = os.path.join(os.path.realpath(REPO_DIR), 'prettyprinter') + os.sep
+        if inner and os.path.realpath(inner).startswith(pkg):
+            return viol('package-raised', '%r raised inside %s\n%s' % (e, inner, traceback.format_exc()[-1200:]))
         raise HarnessError('oracle of %s crashed on case %s\n%s' % (
             check.ID, canonical(case)[:2000], traceback.format_exc()))
 
